@@ -59,7 +59,18 @@ module Ringasis = struct
     if small (nwords m) (2 * nwords m) then Some (sval (ibig_cubic_asis_w w64 d21 ts tk chunk sq s (typed m))) else None
   let pow s (m : Zar.t) (e : Zar.t) : Zar.t result option =
     let rw = nwords m * Zar.to_int e in
-    if small_pow rw (rw / 4) then Some (sval (ibig_pow_asis w64 ts tk chunk sq s (typed m) e)) else None
+    if small rw (rw / 4) then Some (sval (ibig_pow_w w64 d21 ts tk chunk sq true s (typed m) e)) else None
+  (* primitive-operand forms (Int/RingPrim.v): side l r lr rr a, op add sub mul *)
+  let pside = function "r" | "rr" -> PRight | _ -> PLeft
+  let pref = function "lr" | "rr" -> true | _ -> false
+  let pop_of = function "add" -> PAdd | "sub" -> PSub | _ -> PMul
+  let bits_of ty = Zar.of_int (match ty with "i8" -> 8 | "i16" -> 16 | "i32" -> 32 | "i64" | "isize" -> 64 | _ -> 128)
+  let uprim side o (x : Zar.t) (p : Zar.t) : Zar.t result option =
+    if small (nwords x) 2 then Some (uval (ubig_prim w64 d21 ts tk chunk sq (pop_of o) (pside side) (pref side) (typed x) p)) else None
+  let iprim signed_ty side o (x : Zar.t) (p : Zar.t) : Zar.t result option =
+    let s, m = sm x in
+    let q = (match signed_ty with Some ty -> ibig_from_signed w64 (bits_of ty) p | None -> ibig_from_unsigned w64 p) in
+    if small (nwords m) 2 then Some (sval (ibig_prim w64 d21 ts tk chunk sq (pop_of o) (pside side) (pref side) (s, typed m) q)) else None
   let kmul (which : int) s (la : int) (lb : int) (c : Zar.t) (a : Zar.t) (b : Zar.t) : string option =
     if not (small la lb) then None else
     let cw = words (la + lb) c and aw = words la a and bw = words lb b in
@@ -114,9 +125,11 @@ let judge op args got =
       let x = a 3 and p = a 4 in
       let l, r = if side = "r" || side = "rr" then (p, x) else (x, p) in
       if op = "uprim" then
-        expect (res_str (match o with "add" -> ubig_add_spec l r | "sub" -> ubig_sub_spec l r | _ -> ubig_mul_spec l r)) got
+        expect ~extra:(fido (Ringasis.uprim side o x p) got)
+          (res_str (match o with "add" -> ubig_add_spec l r | "sub" -> ubig_sub_spec l r | _ -> ubig_mul_spec l r)) got
       else
-        expect_val (match o with "add" -> ibig_add_spec l r | "sub" -> ibig_sub_spec l r | _ -> ibig_mul_spec l r) got
+        let asis = Ringasis.iprim (if op = "iprim_i" then Some (List.nth args 0) else None) side o x p in
+        expect_val ~extra:(fido asis got) (match o with "add" -> ibig_add_spec l r | "sub" -> ibig_sub_spec l r | _ -> ibig_mul_spec l r) got
   | "usqr" | "isqr" ->
       let x = a 0 in
       expect_val ~extra:("cls=" ^ cls_of x ^ " " ^ fido (Ringasis.sqr (Zar.abs x)) got) (sqr_spec x) got
